@@ -17,14 +17,17 @@ RUN_TIMEOUT = 240
 DETERMINISM_RUNS = 8
 RULE = ("Generator of C01 with 60% of runs at maximal eviction pressure "
         "(period 1-3, memory threshold 1-40 scalars), inputs frozen through "
-        "freeze_data or load_data (the over_time route is exercised in C14), "
+        "freeze_data or load_data (85% of runs) or through over_time (15%: "
+        "C14's workload at period 1-3 / threshold 1-10 scalars, frozen-entry "
+        "oracle only), "
         "importance overrides incl. 0 (freeze) on computed entries. "
         "Invariants I1-I6 checked after every op. Non-trivial: >=1 eviction "
         "fired while frozen inputs were present AND >=1 value compared. "
         "Distinct = as C01.")
 PROBES = ['eviction', 'eviction_during_nested_request',
           'importance_override', 'regular_cleanup_fired', 'cleanup_calls',
-          'memory_loop_evictions']
+          'memory_loop_evictions', 'route_freeze_data', 'route_load_data',
+          'route_over_time', 'eviction_inside_over_time']
 COMPONENTS = cc.COMPONENTS
 ASSUMPTIONS = [
     'bounded termination is observed as: one clean-up makes at most (n+2)^2 '
@@ -33,16 +36,66 @@ ASSUMPTIONS = [
     'the value clause (I6) uses C01\'s comparison and tolerances']
 
 
+_KEEP_TIME = ('frozen_evicted:', 'cleanup_bookkeeping')
+
+
+warmup = cc.warmup
+
+
 def generate(rng, tier):
-    return cc.generate(rng, tier, 'C03')
+    # 15 % of the runs freeze their inputs through the time-series driver
+    # (the third documented route): C14's over_time workload with aggressive
+    # cache knobs, of which only the frozen-entry / bookkeeping oracles are
+    # reported here
+    if rng.child('c03kind').chance(0.15):
+        from . import C14
+        run = C14.generate(rng, tier)
+        run['config']['period'] = rng.child('c03p').pick([1, 1, 2, 3])
+        run['config']['mem_scalars'] = rng.child('c03m').pick([1, 3, 10])
+        run['kind'] = 'time'
+        return run
+    run = cc.generate(rng, tier, 'C03')
+    run['kind'] = 'core'
+    return run
 
 
-fixup = cc.fixup
-simplify = cc.simplify
+def fixup(run):
+    if run.get('kind') == 'time':
+        from . import C14
+        r = C14.fixup(run)
+    else:
+        r = cc.fixup(run)
+    if r is not None:
+        r['kind'] = run.get('kind', 'core')
+    return r
+
+
+def simplify(run):
+    kind = run.get('kind', 'core')
+    if kind == 'time':
+        from . import C14
+        gen = C14.simplify(run)
+    else:
+        gen = cc.simplify(run)
+    for c in gen:
+        c['kind'] = kind
+        yield c
 
 
 def execute(run):
-    # I6 (no silent fallback to defaults) is C01's comparison restricted to
-    # discrepancies that coincide with a frozen-input problem, so only C03's
-    # own invariants are reported here; value mismatches are C01's.
-    return cc.execute(run, 'C03', {'C03'})
+    if run.get('kind') == 'time':
+        from . import C14
+        res = C14.execute(run)
+        res['violations'] = [v for v in res['violations']
+                             if v['sig'].startswith(_KEEP_TIME)]
+        res['nontrivial'] = bool(res.get('faults', {}).get(
+            'eviction_inside_over_time'))
+        res.setdefault('probes', {})['route_over_time'] = 1
+        res['state_sig'] = 'time:' + str(res.get('state_sig'))
+        return res
+    # I6 (no silent fallback to defaults) is C01's comparison; value
+    # mismatches are reported by C01, C03 reports its own invariants I1-I5.
+    res = cc.execute(run, 'C03', {'C03'})
+    res.setdefault('probes', {})[
+        'route_' + run['config'].get('freeze', 'freeze_data')] = 1
+    return res
